@@ -158,7 +158,11 @@ func (f *FixedUintField) GenReadFrom() (string, error) {
 			g.printlnf("if err == io.EOF {")
 			g.printlnf("err = io.ErrUnexpectedEOF")
 			g.printlnf("}")
+			// Only take the address when the byte was really there: after a failed
+			// Skip the range may be empty (nil Wire) and indexing it panics.
+			g.printlnf("if err == nil {")
 			g.printlnf("value.%s = &reader.Range(reader.Pos()-1, reader.Pos())[0][0]", f.name)
+			g.printlnf("}")
 		} else {
 			g.printlnf("tempVal := %s(0)", digit)
 			gen("tempVal")
